@@ -876,7 +876,15 @@ def handleOp (d : DState) (p : Pending) (res : List String) : DState := Id.run d
       d := { d with nCancelled := d.nCancelled + 1 }
       d := if res.take 2 == ["err", "cancelled"] then
           (if implPolls == some calls then d else d.diff "polls of a cancelled build" (toString calls) (toString implPolls))
-        else d.diff "build outcome" "err cancelled" implStr
+        else
+          match args.cancel, implPolls with
+          | some n, some p =>
+            -- the callback answered `true` from call n on; the build asked p > n times, so it was told to stop
+            -- and reported success all the same
+            if implOk && p > n then
+              d.prop "C10" s!"build answered [{implStr}] although the cancellation callback answered true from its call {n} on and the build called it {p} times (the model is cancelled at call {calls})"
+            else d.diff "build outcome" "err cancelled" implStr
+          | _, _ => d.diff "build outcome" "err cancelled" implStr
       return { d with resync := true, preBuild := none }
     | .error (.oracle w) =>
       -- the recorded events stop where the implementation stopped: only a failed build may do that
